@@ -3,7 +3,7 @@
 # run the quick check of its property with numqi imported from that worktree (PYTHONPATH; /repo itself is never touched), expect exit 1.
 # Writes one line per seed to stdout. (C08's CrossHair leg reads /repo/python directly and is therefore not exercised here.)
 cd "$(dirname "$0")"
-ids=${@:-$(ls seeded)}
+ids=${@:-$(ls seeded | grep -v SWEEP)}
 for id in $ids; do
   prop=${id:0:3}; [ "$id" = C13b ] && prop=C01      # C13b lives in the Stiefel polar chart, which C13 takes as a hypothesis and C01 checks
   wt=/tmp/sweep_$id; git -C /repo worktree remove --force $wt 2>/dev/null; rm -rf $wt
